@@ -199,9 +199,12 @@ BAD_TXS = [
 
 @obligation(tier="quick", parts=len(BAD_TXS) + 1, timeout=300,
             part_names=lambda i: "truncated at a symbolic offset" if i == len(BAD_TXS) else BAD_TXS[i][0],
-            bounds="undecodable transactions: 6 catalogue cases + the signed sample truncated at every byte offset 0..len-1 (symbolic)",
-            examples=[(i, dict(k=0)) for i in range(len(BAD_TXS))] + [(len(BAD_TXS), dict(k=10)), (len(BAD_TXS), dict(k=len(TX_SIGNED_1IN) - 1))])
-def errors(k: int) -> bool:
+            bounds="undecodable transactions: 6 catalogue cases + the signed sample truncated at every byte offset 0..len-1 (symbolic); "
+                   "pre-state: a reconnection is pending after an earlier link failure, or not (symbolic)",
+            examples=[(i, dict(k=0, pending=False)) for i in range(len(BAD_TXS))] + [(len(BAD_TXS), dict(k=10, pending=False)),
+                                                                                     (len(BAD_TXS), dict(k=len(TX_SIGNED_1IN) - 1, pending=True)),
+                                                                                     (0, dict(k=0, pending=True))])
+def errors(k: int, pending: bool) -> bool:
     """
     pre: 0 <= k < len(TX_SIGNED_1IN)
     post: _
@@ -214,8 +217,10 @@ def errors(k: int) -> bool:
     req = valid_request("sign", 0)
     req["message"]["tx"] = txhex
     proto, dongle, world = make_stack(c04._device("sign"))
+    proto._comm_issue = pending       # the state an earlier request that hit a link failure leaves behind
+    n0 = len(world.log)
     out = handle(proto, req)
-    return out == ("reply", {"errorcode": -102}) and world.exchanges == 0
+    return out == ("reply", {"errorcode": -102}) and world.exchanges == 0 and len(world.log) == n0
 
 
 # ------------------------------------------------------------------ what is relayed for signing, in both sighash modes
